@@ -385,6 +385,17 @@ pub fn handle(req: &J) -> J {
         let mut s = shared.borrow_mut();
         s.want_trace = wants("trace");
         s.want_folds = wants("class_folds");
+        // the declared minimum gas of the instruction at each offset, read from our own disassembly of the code: the
+        // monitor adds these up along every path, independently of the VM's gas counter
+        if let Ok(stream) = sle::disassembly::InstructionStream::try_from(code.as_slice()) {
+            if let Ok(thread) = stream.new_thread(0) {
+                let mut i = 0u32;
+                while let Some(op) = thread.instruction(i) {
+                    s.cost_at.push(op.min_gas_cost());
+                    i += 1;
+                }
+            }
+        }
         if let Some(cap) = req.get("trace_cap").and_then(J::as_u64) {
             s.trace_cap = cap as usize;
         }
